@@ -1106,3 +1106,57 @@ def push_not(fn) -> int:
     for i, st in enumerate(fn.body):
         fn.body[i] = T().visit(st)
     return count
+
+
+def or_defaults(fn) -> int:
+    """`if not x: x = E`  ->  `x = x or E`   (x a local name; also `if x is None: x = E` is left alone: not the same test)"""
+    count = 0
+    for body in _stmt_blocks(fn):
+        for i, s in enumerate(body):
+            if isinstance(s, ast.If) and not s.orelse and len(s.body) == 1 and isinstance(s.test, ast.UnaryOp) and isinstance(s.test.op, ast.Not) and isinstance(s.test.operand, ast.Name):
+                a = s.body[0]
+                if isinstance(a, ast.Assign) and len(a.targets) == 1 and isinstance(a.targets[0], ast.Name) and a.targets[0].id == s.test.operand.id:
+                    new = ast.Assign(targets=[a.targets[0]], value=ast.BoolOp(op=ast.Or(), values=[ast.Name(id=a.targets[0].id, ctx=ast.Load()), a.value]))
+                    ast.copy_location(new, s)
+                    ast.fix_missing_locations(new)
+                    body[i] = new
+                    count += 1
+    return count
+
+
+def split_chained_assignments(fn) -> int:
+    """`a = x.b = E`  ->  `a = E` ; `x.b = a`   (one target per assignment; the value is evaluated once, as before)"""
+    count = 0
+    k = 0
+    for body in _stmt_blocks(fn):
+        i = 0
+        while i < len(body):
+            s = body[i]
+            i += 1
+            if not (isinstance(s, ast.Assign) and len(s.targets) > 1):
+                continue
+            names = [t for t in s.targets if isinstance(t, ast.Name)]
+            new = []
+            if names:
+                first = names[0]
+                a0 = ast.Assign(targets=[first], value=s.value)
+                new.append(a0)
+                for t in s.targets:
+                    if t is not first:
+                        new.append(ast.Assign(targets=[t], value=ast.Name(id=first.id, ctx=ast.Load())))
+            elif isinstance(s.value, (ast.Constant, ast.Name)) or (isinstance(s.value, ast.Attribute) and isinstance(s.value.value, ast.Name)):
+                for t in s.targets:
+                    new.append(ast.Assign(targets=[t], value=ast_copy(s.value)))
+            else:
+                k += 1
+                tmp = f"__chain{k}"
+                new.append(ast.Assign(targets=[ast.Name(id=tmp, ctx=ast.Store())], value=s.value))
+                for t in s.targets:
+                    new.append(ast.Assign(targets=[t], value=ast.Name(id=tmp, ctx=ast.Load())))
+            for x in new:
+                ast.copy_location(x, s)
+                ast.fix_missing_locations(x)
+            body[i - 1:i] = new
+            i += len(new) - 1
+            count += 1
+    return count
